@@ -74,6 +74,23 @@ def params_phase(chk, th):
     for clause, detail in pa.boundary_probes():
         chk.violation(clause, detail, script={"probe": "values a hair outside a bound"}, sig={"clause": clause, "probe": "boundary"})
     chk.add_phase("floating-point boundary probes (1 ulp .. 1e-9 relative outside a bound)", cases=64)
+    # parameter values far outside [0, 2 pi): the matrix entry is exp(i phi) for the value as given (numpy's own argument reduction),
+    # a frozen copy taken now reports the same matrix as the live circuit
+    import numpy as np
+    import lightworks as lw
+    for phi in (1e9 + 0.3, -3.3e8, 5e7 + 1.234, 2.0 ** 50, 123456.789, -1e-12):
+        par = lw.Parameter(0.0)
+        c = lw.Circuit(2)
+        c.bs(0, 1); c.ps(0, par); c.bs(0, 1)
+        par.set(phi)
+        chk.count(key="large-phase%r" % phi)
+        B = np.array([[1, 1j], [1j, 1]]) / np.sqrt(2)
+        ref = B @ np.diag([np.exp(1j * phi), 1]) @ B
+        fz = c.copy(freeze_parameters=True)
+        if np.abs(c.U - ref).max() > 1e-9 or np.abs(fz.U - c.U).max() > 1e-12:
+            chk.violation("U", "a phase Parameter holding %r: the circuit's matrix differs from exp(i phi) by %.3g (frozen copy vs live: %.3g)"
+                          % (phi, np.abs(c.U - ref).max(), np.abs(fz.U - c.U).max()), script={"probe": "large phase", "phi": phi}, sig={"clause": "U", "probe": "large_phase"})
+    chk.add_phase("parameter values many turns away from [0, 2 pi)", cases=6)
     tlc.cleanup("C10_params")
 
 
